@@ -27,13 +27,15 @@
 #define VF_FS_NFD 4
 #endif
 #ifndef VF_FS_MAXIO
-#define VF_FS_MAXIO 16             /* most bytes one read/write transfers (unrolled) */
+#define VF_FS_MAXIO 16             /* most bytes one read/write transfers (unrolled; fixed at 16) */
 #endif
 #ifndef VF_FS_NRENAMES
 #define VF_FS_NRENAMES 4
 #endif
-#define VF_FS_R4(x) x x x x
-#define VF_FS_R16(x) VF_FS_R4(VF_FS_R4(x))
+/* transfer loops are unrolled with constant indices (a running symbolic index would turn every byte store into an update
+   of the whole buffer) */
+#define VF_FS_J4(m, b) m((b) + 0) m((b) + 1) m((b) + 2) m((b) + 3)
+#define VF_FS_J16(m) VF_FS_J4(m, 0) VF_FS_J4(m, 4) VF_FS_J4(m, 8) VF_FS_J4(m, 12)
 uint8_t vf_fs_used[VF_FS_NFILES]; uint8_t vf_fs_name[VF_FS_NFILES][VF_FS_NAMELEN]; uint32_t vf_fs_len[VF_FS_NFILES]; uint8_t vf_fs_data[VF_FS_NFILES][VF_FS_FSIZE];
 uint32_t vf_fs_id[VF_FS_NFILES];                    /* content identity tag (rotation checks: which generation a slot holds) */
 uint8_t vf_fd_open[VF_FS_NFD], vf_fd_file[VF_FS_NFD]; uint32_t vf_fd_off[VF_FS_NFD];
@@ -99,8 +101,8 @@ uint64_t x_read(uint32_t fd, uint8_t *buf, uint64_t n)
   int d = (int)fd - 3, f = vf_fd_file[d]; uint32_t off = vf_fd_off[d], len = vf_fs_len[f];
   uint64_t avail = off < len ? len - off : 0, k = n < avail ? n : avail;
   __CPROVER_assert(k <= VF_FS_MAXIO, "file model: read within VF_FS_MAXIO bytes");
-  uint64_t i = 0;
-  VF_FS_R16(if (i < k) { buf[i] = vf_fs_data[f][off + i]; i++; })
+#define VF_FS_RD(j) if ((j) < k) buf[j] = vf_fs_data[f][off + (j)];
+  VF_FS_J16(VF_FS_RD)
   vf_fd_off[d] = off + (uint32_t)k;
   return k;
 }
@@ -111,8 +113,8 @@ uint64_t x_write(uint32_t fd, uint8_t *buf, uint64_t n)
   __CPROVER_assert(n <= VF_FS_MAXIO, "file model: write within VF_FS_MAXIO bytes");
   __CPROVER_assert(off + n <= VF_FS_FSIZE, "file model: file within VF_FS_FSIZE bytes");
   if (!vf_fs_crashed) {
-    uint64_t i = 0;
-    VF_FS_R16(if (i < n) { vf_fs_data[f][off + i] = buf[i]; i++; })
+#define VF_FS_WR(j) if ((j) < n) vf_fs_data[f][off + (j)] = buf[j];
+    VF_FS_J16(VF_FS_WR)
     if (off + n > vf_fs_len[f]) vf_fs_len[f] = off + (uint32_t)n;
   }
   vf_fd_off[d] = off + (uint32_t)n; vf_fs_crashpoint();
